@@ -171,6 +171,18 @@ impl AnyNode {
             AnyNode::Hll(h) => h.clear(),
         }
     }
+    /// `Clone::clone_from(self, src)` (state transfer); false if the node kinds differ
+    pub fn clone_from_other(&mut self, src: &AnyNode) -> bool {
+        match (self, src) {
+            (AnyNode::Filter(a), AnyNode::Filter(b)) => a.clone_from_other(b),
+            (AnyNode::Cms(a), AnyNode::Cms(b)) => a.clone_from_other(b),
+            (AnyNode::Hll(a), AnyNode::Hll(b)) => {
+                a.clone_from(b);
+                true
+            }
+            _ => false,
+        }
+    }
     pub fn fork(&self) -> AnyNode {
         match self {
             AnyNode::Filter(f) => AnyNode::Filter(f.fork()),
